@@ -264,7 +264,7 @@ func runC06(r *Run) int {
 	r.Parallel(2*nBase3, 32, func(w *W, idx int) {
 		v := newV3(idx/nBase3, idx%nBase3)
 		s := render3(&v, spec.LBase, nil)
-		o, err, pan := lib.Decode(lib.K3B, s, false)
+		o, err, pan := lib.DecodeAuto(lib.K3B, s)
 		if err != nil || pan != nil || o.IsNil() {
 			w.Count("valid_vector_not_decoded")
 			return
@@ -277,7 +277,7 @@ func runC06(r *Run) int {
 		v := newV3(idx/100/nBase3, idx/100%nBase3)
 		temporal3(&v, idx%100)
 		s := render3(&v, spec.LTemp, nil)
-		o, err, pan := lib.Decode(lib.K3T, s, false)
+		o, err, pan := lib.DecodeAuto(lib.K3T, s)
 		if err != nil || pan != nil || o.IsNil() {
 			w.Count("valid_vector_not_decoded")
 			return
@@ -314,7 +314,7 @@ func runC06(r *Run) int {
 			checkGrid3Obj(w, g, o, func() Case { return structCase(&v) })
 			if (idx+ti)%16 == 0 {
 				s := render3(&v, spec.LEnv, nil)
-				if d, err, pan := lib.Decode(lib.K3E, s, false); err == nil && pan == nil && !d.IsNil() {
+				if d, err, pan := lib.DecodeAuto(lib.K3E, s); err == nil && pan == nil && !d.IsNil() {
 					checkGrid3Obj(w, g, d, func() Case { return decodeCase(lib.K3E, s, false) })
 				}
 			}
@@ -327,7 +327,7 @@ func runC06(r *Run) int {
 		rng := r.Rng(uint64(i) + 1<<40)
 		v := represent3(rng.IntN(nEff3), rng.IntN(100), rng, nil)
 		s := render3(&v, spec.LEnv, nil)
-		o, err, pan := lib.Decode(lib.K3E, s, false)
+		o, err, pan := lib.DecodeAuto(lib.K3E, s)
 		if err != nil || pan != nil || o.IsNil() {
 			w.Count("valid_vector_not_decoded")
 			return
@@ -427,7 +427,7 @@ func replayC06(r *Run, c Case) {
 			checkGrid3Obj(w, g, lib.Obj{Kind: lib.K3E, E3: lib.Build3(&p.V)}, func() Case { return c })
 		}
 	case !k.V2():
-		o, err, _ := lib.Decode(k, s, false)
+		o, err, _ := lib.DecodeAuto(k, s)
 		if err == nil && !o.IsNil() {
 			checkGrid3Obj(w, g, o, func() Case { return c })
 			if k == lib.K3E {
@@ -537,6 +537,31 @@ func runC13(r *Run) int {
 		if idx%40009 == 0 {
 			w.Sample(map[string]interface{}{"vector": s, "base": b, "temporal": t, "environmental": e})
 		}
+	})
+	// (ii') the same metrics scored as v3.1 and then immediately as v3.0 (and the other way round) on one
+	// goroutine, and on a decoder object used twice (checked only if the library accepts the second decode)
+	r.Parallel(nBase3*100/4, 64, func(w *W, i int) {
+		idx := i * 4
+		rng := r.Rng(uint64(idx) + 1<<43)
+		for pass := 0; pass < 2; pass++ {
+			for _, ver := range [][2]int{{1, 0}, {0, 1}}[pass] {
+				v := newV3(ver, idx/100%nBase3)
+				temporal3(&v, idx%100)
+				s := render3(&v, spec.LEnv, nil)
+				w.Eval(1)
+				b, t, e, ok := obsScores3(w, spec.LEnv, s)
+				if !ok {
+					continue
+				}
+				if t > b {
+					w.Violate(Violation{Monitor: "C13", Check: "(iv) temporal score never exceeds the base score", Case: decodeCase(lib.K3E, s, false), Observed: t, Expected: fmt.Sprintf("<= %v", b)})
+				}
+				if !(ver == 1 && v.M[spec.S] == 1) && e != t {
+					w.Violate(Violation{Monitor: "C13", Check: "(ii) environmental score with all environmental metrics Not Defined equals the temporal score (the other version of the same metrics scored just before)", Case: decodeCase(lib.K3E, s, false), Observed: e, Expected: t})
+				}
+			}
+		}
+		_ = rng
 	})
 	r.Extra("v3.1_scope_changed_vectors_without_constraint_(ii)", skipped31C.Load())
 	// (iv) v2: temporal <= base on all 73,629
